@@ -425,6 +425,12 @@ func opC07Pair(raw json.RawMessage, o *Out) {
 			o.Fail("c07pair/"+kind+"/Invert/"+cls, "after A.Invert(): Contains(B),B.Contains,Intersects = %v, the polygon built from the complement's loops answers %v (model %v); %s",
 				g, w, [3]bool{c.Want.C[1][0], c.Want.D[1][0], c.Want.I[1][0]}, desc)
 		}
+		// the inverted polygon is the complement: same loops, equal to the independently built
+		// complement polygon (equal regions contain each other), disjoint from the original
+		if pa.NumLoops() != len(loops) || !pa.Contains(px[1]) || !px[1].Contains(pa) || pa.Intersects(px[0]) || px[0].Intersects(pa) {
+			o.Fail("c07pair/"+kind+"/Invert/not-the-complement", "after A.Invert(): NumLoops=%d (was %d), Contains(~A)=%v, ~A.Contains=%v, Intersects(A)=%v, A.Intersects=%v; %s",
+				pa.NumLoops(), len(loops), pa.Contains(px[1]), px[1].Contains(pa), pa.Intersects(px[0]), px[0].Intersects(pa), desc)
+		}
 	}
 	if o.nontrivial || spanAny {
 		o.sample = map[string]any{"op": "c07pair", "faces": []int{c.Fa, c.Fb}, "levels": []int{c.Ga, c.Gb, c.Gf},
